@@ -1,6 +1,7 @@
 package chainkit
 
 import (
+	"strings"
 	"github.com/nspcc-dev/neo-go/pkg/core/native/nativehashes"
 	"github.com/nspcc-dev/neo-go/pkg/core/state"
 	"github.com/nspcc-dev/neo-go/pkg/smartcontract"
@@ -115,6 +116,16 @@ func KContract(name string, variant int, opts ...asm.ManifestOpt) *asm.Contract 
 	m("_deploy", 2, true, false)
 	b.InitSlot(0, 2).Op(opcode.LDARG1).Str("dep").Syscall("System.Storage.GetContext").Syscall("System.Storage.Put").Op(opcode.RET)
 
+	// A name ending in "big" pads the script (unreachable bytes after the last RET) so that the serialised contract
+	// state is larger than a storage value a contract may write itself (64 KiB), yet within what ContractManagement
+	// stores: every layer below (write cache, trie leaves, backends, state sync) has to carry it.
+	if strings.HasSuffix(name, "big") {
+		pad := make([]byte, 66000)
+		for i := range pad {
+			pad[i] = byte(opcode.NOP)
+		}
+		b.Raw(pad)
+	}
 	// Odd variants declare token standards: the node keeps the hashes of such contracts in a cached index
 	// (GetNEP17Contracts / GetNEP11Contracts) that has to follow deployments, updates and destructions, discarded ones too.
 	if variant%2 == 1 {
